@@ -87,11 +87,7 @@ func (r *HashRepository[T]) toExec(entity *T) (verf reflect.Value, exec rueidis.
 		}
 	}
 	exec.Keys = []string{key(r.prefix, keyVal)}
-	if extVal != 0 {
-		exec.Args = make([]string, 0, len(fields)*2+1)
-	} else {
-		exec.Args = make([]string, 0, len(fields)*2)
-	}
+	exec.Args = make([]string, 0, len(r.factory.fields)*2+2)
 	exec.Args = append(exec.Args, r.schema.ver.name, verVal) // keep the ver field be the first pair for the hashSaveScript
 	delete(fields, r.schema.ver.name)
 	for k, v := range fields {
@@ -100,6 +96,16 @@ func (r *HashRepository[T]) toExec(entity *T) (verf reflect.Value, exec rueidis.
 	if extVal != 0 {
 		exec.Args = append(exec.Args, strconv.FormatInt(extVal, 10))
 	}
+	// fields without a string form (nil pointers) must not keep the value of a previously saved version:
+	// their names and their count go last, and the hashSaveScript clears them with HDEL.
+	cleared := 0
+	for k := range r.factory.fields {
+		if _, ok := fields[k]; !ok && k != r.schema.ver.name {
+			exec.Args = append(exec.Args, k)
+			cleared++
+		}
+	}
+	exec.Args = append(exec.Args, strconv.Itoa(cleared))
 	return
 }
 
@@ -224,11 +230,14 @@ func (r *HashRepository[T]) fromFields(fields map[string]string) (*T, error) {
 }
 
 var hashSaveScript = rueidis.NewLuaScript(`
+local d = {}
+for i = 1, tonumber(table.remove(ARGV)) do d[i] = table.remove(ARGV) end
 if (ARGV[1] == '')
 then
   local e = (#ARGV % 2 == 1) and table.remove(ARGV) or nil
   if redis.call('HSET',KEYS[1],unpack(ARGV))
   then
+    if #d > 0 then redis.call('HDEL',KEYS[1],unpack(d)) end
     if e then redis.call('PEXPIREAT',KEYS[1],e) end
   end
   return ARGV[2]
@@ -240,6 +249,7 @@ then
   local e = (#ARGV % 2 == 1) and table.remove(ARGV) or nil
   if redis.call('HSET',KEYS[1],unpack(ARGV))
   then
+    if #d > 0 then redis.call('HDEL',KEYS[1],unpack(d)) end
     if e then redis.call('PEXPIREAT',KEYS[1],e) end
     return ARGV[2]
   end
